@@ -519,6 +519,10 @@ def run(ctx, deep=False):
         for key, detail in problems:
             ctx.violation(key, jc, detail)
         cases.append(jc)
+        if len(ctx.violations) >= 25:  # enough evidence; a broken tree can make every history slow
+            impl_out.append(line)
+            reqs.append(request(case))
+            break
         impl_out.append(line)
         reqs.append(request(case))
         if case["src"] == "random" and len(ctx.samples) < 4:
